@@ -35,9 +35,11 @@ type Src struct {
 	Port int
 }
 
-func (s Src) UDP() *net.UDPAddr { return &net.UDPAddr{IP: net.IP(append([]byte(nil), s.IP...)), Port: s.Port} }
-func (s Src) String() string    { return s.UDP().String() }
-func (s Src) NetIP() net.IP     { return net.IP(s.IP) }
+func (s Src) UDP() *net.UDPAddr {
+	return &net.UDPAddr{IP: net.IP(append([]byte(nil), s.IP...)), Port: s.Port}
+}
+func (s Src) String() string { return s.UDP().String() }
+func (s Src) NetIP() net.IP  { return net.IP(s.IP) }
 
 // genSrc draws a source address as a socket of the given kind reports it: a udp4 socket yields
 // 4-byte IPv4 addresses; a dual-stack socket yields 16-byte addresses (IPv4 peers v4-mapped).
@@ -247,7 +249,7 @@ func (s *Srv) barrier(c *kit.Case) bool {
 
 // ---- KRPC builders (independent of the library's encoder) ---------------------------------------
 
-func bs(b []byte) BV  { return refmodel.BStr(string(b)) }
+func bs(b []byte) BV   { return refmodel.BStr(string(b)) }
 func bstr(s string) BV { return refmodel.BStr(s) }
 func bint(i int64) BV  { return refmodel.BInt(i) }
 
@@ -279,12 +281,12 @@ func mkError(t []byte, code int64, msg string) []byte {
 
 type OutMsg struct {
 	simnet.Out
-	V     BV
-	OK    bool // parsed as a dictionary consuming all bytes
-	T     string
-	HasT  bool
-	Y     string
-	Q     string
+	V    BV
+	OK   bool // parsed as a dictionary consuming all bytes
+	T    string
+	HasT bool
+	Y    string
+	Q    string
 }
 
 func parseOut(o simnet.Out) OutMsg {
@@ -306,8 +308,8 @@ func parseOut(o simnet.Out) OutMsg {
 	return m
 }
 
-func (m OutMsg) R() (BV, bool)  { return m.V.Get("r") }
-func (m OutMsg) A() (BV, bool)  { return m.V.Get("a") }
+func (m OutMsg) R() (BV, bool) { return m.V.Get("r") }
+func (m OutMsg) A() (BV, bool) { return m.V.Get("a") }
 func (m OutMsg) ErrCode() (int64, bool) {
 	e, ok := m.V.Get("e")
 	if !ok || e.Kind != 'l' || len(e.L) < 1 || e.L[0].Kind != 'i' {
